@@ -61,15 +61,30 @@ struct St {
     status: Vec<Status>,
     current: Option<usize>,
     last_running: Option<usize>,
-    readers: Vec<u32>,
-    writer: Option<usize>,
-    waiting: BTreeSet<usize>,
+    /// one model per lock (keyed by the lock's address): read guards held per thread, write holder,
+    /// announced writers
+    locks: std::collections::BTreeMap<usize, LockSt>,
+    /// the lock each thread's pending request is for
+    pend_addr: Vec<usize>,
     policy: Policy,
     prefix: Vec<usize>,
     trace: Vec<Point>,
     abort: Option<String>,
     diverged: Option<String>,
     steps: u64,
+}
+
+#[derive(Clone, Default)]
+struct LockSt {
+    readers: Vec<u32>,
+    writer: Option<usize>,
+    waiting: BTreeSet<usize>,
+}
+
+impl LockSt {
+    fn free(&self) -> bool {
+        self.writer.is_none() && self.readers.iter().all(|&r| r == 0)
+    }
 }
 
 pub struct Sched {
@@ -93,11 +108,19 @@ impl Sched {
 const ABORT_MSG: &str = "sched-abort";
 
 impl St {
+    fn lk(&self, addr: usize) -> LockSt {
+        self.locks.get(&addr).cloned().unwrap_or_else(|| LockSt { readers: vec![0; self.status.len()], writer: None, waiting: BTreeSet::new() })
+    }
+    fn lkm(&mut self, addr: usize) -> &mut LockSt {
+        let n = self.status.len();
+        self.locks.entry(addr).or_insert_with(|| LockSt { readers: vec![0; n], writer: None, waiting: BTreeSet::new() })
+    }
     fn enabled(&self, t: usize) -> bool {
+        let l = self.lk(self.pend_addr[t]);
         match self.status[t] {
             Status::Parked(Pending::Start) | Status::Parked(Pending::WriteAnnounce) | Status::Parked(Pending::TryRead) | Status::Parked(Pending::TryWrite) | Status::Parked(Pending::PreGranted) => true,
-            Status::Parked(Pending::Read) => self.writer.is_none() && (self.policy == Policy::ReaderPreferring || self.waiting.is_empty()),
-            Status::Parked(Pending::WriteWait) => self.writer.is_none() && self.readers.iter().all(|&r| r == 0),
+            Status::Parked(Pending::Read) => l.writer.is_none() && (self.policy == Policy::ReaderPreferring || l.waiting.is_empty()),
+            Status::Parked(Pending::WriteWait) => l.free(),
             _ => false,
         }
     }
@@ -130,9 +153,18 @@ impl St {
             }
             let mut desc = String::from("deadlock: ");
             for (t, s) in self.status.iter().enumerate() {
-                desc.push_str(&format!("[thread {} {:?} holds {} read guard(s){}] ", t, s, self.readers[t], if self.writer == Some(t) { " + write guard" } else { "" }));
+                let mut holds = String::new();
+                for (li, (_, l)) in self.locks.iter().enumerate() {
+                    if l.readers[t] > 0 || l.writer == Some(t) {
+                        holds.push_str(&format!(" lock#{}: {} read guard(s){}", li, l.readers[t], if l.writer == Some(t) { " + write guard" } else { "" }));
+                    }
+                }
+                let wants = self.locks.keys().position(|a| *a == self.pend_addr[t]).map(|i| format!(" wants lock#{}", i)).unwrap_or_default();
+                desc.push_str(&format!("[thread {} {:?}{} holds{}] ", t, s, wants, if holds.is_empty() { " nothing".to_string() } else { holds }));
             }
-            desc.push_str(&format!("waiting writers {:?}", self.waiting));
+            for (li, (_, l)) in self.locks.iter().enumerate() {
+                desc.push_str(&format!("lock#{} waiting writers {:?} ", li, l.waiting));
+            }
             self.abort = Some(desc);
             return;
         }
@@ -161,9 +193,8 @@ impl Sched {
                 status: vec![Status::NotStarted; n],
                 current: None,
                 last_running: None,
-                readers: vec![0; n],
-                writer: None,
-                waiting: BTreeSet::new(),
+                locks: Default::default(),
+                pend_addr: vec![0; n],
                 policy,
                 prefix,
                 trace: Vec::new(),
@@ -176,9 +207,10 @@ impl Sched {
     }
 
     /// Parks thread t at a scheduling point until it is chosen.
-    fn park(&self, t: usize, pending: Pending) {
+    fn park(&self, t: usize, pending: Pending, addr: usize) {
         let mut st = self.m.lock().unwrap();
         st.status[t] = Status::Parked(pending);
+        st.pend_addr[t] = addr;
         if st.current == Some(t) {
             st.current = None;
         }
@@ -192,13 +224,13 @@ impl Sched {
             if st.current == Some(t) {
                 match st.status[t] {
                     Status::Parked(Pending::Start) => {}
-                    Status::Parked(Pending::Read) => st.readers[t] += 1,
+                    Status::Parked(Pending::Read) => st.lkm(addr).readers[t] += 1,
                     Status::Parked(Pending::WriteAnnounce) => {
-                        if st.writer.is_none() && st.readers.iter().all(|&r| r == 0) {
-                            st.writer = Some(t);
+                        if st.lk(addr).free() {
+                            st.lkm(addr).writer = Some(t);
                         } else {
                             // the request is now visible to readers; wait for the grant
-                            st.waiting.insert(t);
+                            st.lkm(addr).waiting.insert(t);
                             st.status[t] = Status::Parked(Pending::WriteWait);
                             st.last_running = Some(t);
                             st.current = None;
@@ -208,8 +240,8 @@ impl Sched {
                         }
                     }
                     Status::Parked(Pending::WriteWait) => {
-                        st.waiting.remove(&t);
-                        st.writer = Some(t);
+                        st.lkm(addr).waiting.remove(&t);
+                        st.lkm(addr).writer = Some(t);
                     }
                     _ => {}
                 }
@@ -227,9 +259,10 @@ impl Sched {
     /// the lock at the moment of the attempt) or, under the writer-preferring policy, at a write
     /// request that could have been announced first: that alternative is a choice point costing one
     /// preemption, and taking it grants (or announces) the rival's request in the model.
-    fn park_try(&self, t: usize, kind: LockKind) -> bool {
+    fn park_try(&self, t: usize, kind: LockKind, addr: usize) -> bool {
         let mut st = self.m.lock().unwrap();
         st.status[t] = Status::Parked(if kind == LockKind::Read { Pending::TryRead } else { Pending::TryWrite });
+        st.pend_addr[t] = addr;
         if st.current == Some(t) {
             st.current = None;
         }
@@ -241,9 +274,10 @@ impl Sched {
                 std::panic::panic_any(ABORT_MSG);
             }
             if st.current == Some(t) {
-                let free = st.writer.is_none() && st.readers.iter().all(|&r| r == 0);
+                let l = st.lk(addr);
+                let free = l.free();
                 let can_succeed = match kind {
-                    LockKind::Read => st.writer.is_none() && (st.policy == Policy::ReaderPreferring || st.waiting.is_empty()),
+                    LockKind::Read => l.writer.is_none() && (st.policy == Policy::ReaderPreferring || l.waiting.is_empty()),
                     LockKind::Write => free,
                 };
                 let n = st.status.len();
@@ -252,6 +286,7 @@ impl Sched {
                 } else {
                     (0..n).find(|&u| {
                         u != t
+                            && st.pend_addr[u] == addr
                             && match st.status[u] {
                                 Status::Parked(Pending::WriteAnnounce) => free || (kind == LockKind::Read && st.policy == Policy::WriterPreferring),
                                 Status::Parked(Pending::WriteWait) => free,
@@ -275,16 +310,16 @@ impl Sched {
                         // the rival got there first
                         match st.status[u] {
                             Status::Parked(Pending::Read) => {
-                                st.readers[u] += 1;
+                                st.lkm(addr).readers[u] += 1;
                                 st.status[u] = Status::Parked(Pending::PreGranted);
                             }
                             Status::Parked(Pending::WriteAnnounce) if !free => {
-                                st.waiting.insert(u);
+                                st.lkm(addr).waiting.insert(u);
                                 st.status[u] = Status::Parked(Pending::WriteWait);
                             }
                             _ => {
-                                st.waiting.remove(&u);
-                                st.writer = Some(u);
+                                st.lkm(addr).waiting.remove(&u);
+                                st.lkm(addr).writer = Some(u);
                                 st.status[u] = Status::Parked(Pending::PreGranted);
                             }
                         }
@@ -292,8 +327,8 @@ impl Sched {
                 }
                 if succeed {
                     match kind {
-                        LockKind::Read => st.readers[t] += 1,
-                        LockKind::Write => st.writer = Some(t),
+                        LockKind::Read => st.lkm(addr).readers[t] += 1,
+                        LockKind::Write => st.lkm(addr).writer = Some(t),
                     }
                 }
                 st.status[t] = Status::Running;
@@ -304,17 +339,18 @@ impl Sched {
         }
     }
 
-    fn release(&self, t: usize, kind: LockKind) {
+    fn release(&self, t: usize, kind: LockKind, addr: usize) {
         let mut st = self.m.lock().unwrap();
+        let l = st.lkm(addr);
         match kind {
             LockKind::Read => {
-                if st.readers[t] > 0 {
-                    st.readers[t] -= 1;
+                if l.readers[t] > 0 {
+                    l.readers[t] -= 1;
                 }
             }
             LockKind::Write => {
-                if st.writer == Some(t) {
-                    st.writer = None;
+                if l.writer == Some(t) {
+                    l.writer = None;
                 }
             }
         }
@@ -337,15 +373,15 @@ struct Obs {
 }
 
 impl LockObserver for Obs {
-    fn before_acquire(&self, _lock: usize, kind: LockKind) {
-        self.sched.park(self.t, if kind == LockKind::Read { Pending::Read } else { Pending::WriteAnnounce });
+    fn before_acquire(&self, lock: usize, kind: LockKind) {
+        self.sched.park(self.t, if kind == LockKind::Read { Pending::Read } else { Pending::WriteAnnounce }, lock);
     }
     fn after_acquire(&self, _lock: usize, _kind: LockKind) {}
-    fn after_release(&self, _lock: usize, kind: LockKind) {
-        self.sched.release(self.t, kind);
+    fn after_release(&self, lock: usize, kind: LockKind) {
+        self.sched.release(self.t, kind, lock);
     }
-    fn try_acquire(&self, _lock: usize, kind: LockKind) -> Option<bool> {
-        Some(self.sched.park_try(self.t, kind))
+    fn try_acquire(&self, lock: usize, kind: LockKind) -> Option<bool> {
+        Some(self.sched.park_try(self.t, kind, lock))
     }
 }
 
@@ -621,7 +657,7 @@ impl Pool {
                         set_thread_observer(Some(obs));
                         let mut out: ReaderOut = Vec::new();
                         let r = guarded(|| {
-                            sched.park(t, Pending::Start);
+                            sched.park(t, Pending::Start, 0);
                             for &op in &rops {
                                 let c0 = wdone.load(Ordering::SeqCst);
                                 let res = do_rop(&comp, op);
@@ -669,7 +705,7 @@ pub fn run_schedule(case: &SchedCase, image: &[u8], prefix: &[usize], pool: &Poo
     set_thread_observer(Some(obs));
     let mut wres = Vec::new();
     let r = guarded(|| {
-        sched.park(0, Pending::Start);
+        sched.park(0, Pending::Start, 0);
         for (i, &op) in case.writer.iter().enumerate() {
             let mut tick = |before: bool| {
                 if before {
@@ -757,32 +793,41 @@ pub struct ConfigStats {
 /// Lock bookkeeping for the single-threaded reference run: a thread that asks for the lock in a
 /// mode it can never get while holding it itself would block forever in the real lock.
 struct SelfDeadlockObs {
-    reads: std::sync::atomic::AtomicUsize,
-    writes: std::sync::atomic::AtomicUsize,
+    /// per lock address: (read guards, write guards) held by this thread
+    held: Mutex<std::collections::BTreeMap<usize, (usize, usize)>>,
 }
 
 impl LockObserver for SelfDeadlockObs {
-    fn before_acquire(&self, _lock: usize, kind: LockKind) {
-        use std::sync::atomic::Ordering::SeqCst;
-        let (r, w) = (self.reads.load(SeqCst), self.writes.load(SeqCst));
+    fn before_acquire(&self, lock: usize, kind: LockKind) {
+        let (r, w) = self.held.lock().unwrap().get(&lock).copied().unwrap_or((0, 0));
         if w > 0 || (kind != LockKind::Read && r > 0) {
             panic!("SELF-DEADLOCK: the thread requests the lock for {:?} while it holds it itself ({} read guard(s), {} write guard(s))", kind, r, w);
         }
     }
-    fn after_acquire(&self, _lock: usize, kind: LockKind) {
-        use std::sync::atomic::Ordering::SeqCst;
-        if kind == LockKind::Read { self.reads.fetch_add(1, SeqCst) } else { self.writes.fetch_add(1, SeqCst) };
+    fn after_acquire(&self, lock: usize, kind: LockKind) {
+        let mut h = self.held.lock().unwrap();
+        let e = h.entry(lock).or_insert((0, 0));
+        if kind == LockKind::Read {
+            e.0 += 1
+        } else {
+            e.1 += 1
+        }
     }
-    fn after_release(&self, _lock: usize, kind: LockKind) {
-        use std::sync::atomic::Ordering::SeqCst;
-        if kind == LockKind::Read { self.reads.fetch_sub(1, SeqCst) } else { self.writes.fetch_sub(1, SeqCst) };
+    fn after_release(&self, lock: usize, kind: LockKind) {
+        let mut h = self.held.lock().unwrap();
+        let e = h.entry(lock).or_insert((0, 0));
+        if kind == LockKind::Read {
+            e.0 = e.0.saturating_sub(1)
+        } else {
+            e.1 = e.1.saturating_sub(1)
+        }
     }
 }
 
 pub fn explore_config(ctx: &Ctx, case: &SchedCase, image: &[u8], max_preemptions: Option<usize>, cap: u64) -> ConfigStats {
     let mut stats = ConfigStats { schedules: 0, choice_points: 0, steps: 0, outcomes: BTreeSet::new(), bound_completed: None, capped: false };
     // the sequential reference runs the real code on this thread: a self-deadlock must not hang the check
-    set_thread_observer(Some(Arc::new(SelfDeadlockObs { reads: Default::default(), writes: Default::default() })));
+    set_thread_observer(Some(Arc::new(SelfDeadlockObs { held: Default::default() })));
     let seq = ops::guarded(|| sequential_reference(case, image));
     set_thread_observer(None);
     let (table, wref) = match seq {
